@@ -149,7 +149,11 @@ class Gen(object):
             return self.rng.choice(self.vpool)
         return self._attr_value_fresh()
 
+    NSPOOL = ['', XHTML, 'urn:a', 'urn:b']
+
     def qn(self, local):
+        if self.ns == 'heavy':
+            return [self.ns_stack[-1] if getattr(self, 'ns_stack', None) else '', local]
         return [XHTML if self.ns == 'xhtml' else '', local]
 
     def attrs(self, tag):
@@ -196,7 +200,27 @@ class Gen(object):
             else:
                 tag = rng.choice(ORDINARY[:8] if rng.random() < 0.8 else ORDINARY)
         self.budget -= 1
+        heavy_wrap = None
+        if self.ns == 'heavy' and tag in RAWTEXT:
+            # script/style in a foreign namespace or under a non-empty XHTML prefix is the known finding
+            # C09-foreign-ns-script (raw for one stage of the html pipeline, not for the other)
+            tag = 'div'
+        if self.ns == 'heavy':
+            # namespace of this element: mostly its parent's, else another one of the pool (un-namespaced
+            # included); with ns_events a changed namespace is announced by START_NS/END_NS around the
+            # element as a parser would, without them the flattener has to make the declaration up
+            if not hasattr(self, 'ns_stack'):
+                self.ns_stack = [rng.choice(self.NSPOOL)]
+                parent = None
+            else:
+                parent = self.ns_stack[-1]
+            cur = parent if (parent is not None and rng.random() < 0.55) else rng.choice(self.NSPOOL)
+            self.ns_stack.append(cur)
+            if self.ns_events and cur and (cur != parent or rng.random() < 0.15):
+                heavy_wrap = rng.choice(['', '', 'p', 'q'])
         ev = [['S', self.qn(tag), self.attrs(tag)]]
+        if heavy_wrap is not None:
+            ev.insert(0, ['NS', heavy_wrap, self.ns_stack[-1]])
         if tag in VOID and not self.void_kids:
             pass
         elif tag in RAWTEXT and not self.raw_markup:
@@ -206,6 +230,10 @@ class Gen(object):
         else:
             ev.extend(self.children(depth + 1))
         ev.append(['E', self.qn(tag)])
+        if self.ns == 'heavy':
+            if heavy_wrap is not None:
+                ev.append(['ENS', heavy_wrap])
+            self.ns_stack.pop()
         return ev
 
     def children(self, depth):
